@@ -732,7 +732,7 @@ pub fn run(cfg: &Cfg) -> i32 {
                 names.push(format!("stateful/{}/{}", <$K>::NAME, sh));
                 jobs.push(Box::new(move |w: &mut dyn Write| {
                     let mut rep = Report::default();
-                    stateful_job::<$K>(seed, cases, &mut rep);
+                    chunked(seed, cases, 500, &mut rep, |s, n, r| stateful_job::<$K>(s, n, r));
                     rep.emit(w);
                 }));
             }
@@ -742,7 +742,7 @@ pub fn run(cfg: &Cfg) -> i32 {
                 names.push(format!("rand/{}/{}", <$K>::NAME, sh));
                 jobs.push(Box::new(move |w: &mut dyn Write| {
                     let mut rep = Report::default();
-                    rand_job::<$K>(seed, cases, &mut rep);
+                    chunked(seed, cases, 500, &mut rep, |s, n, r| rand_job::<$K>(s, n, r));
                     rep.emit(w);
                 }));
             }
